@@ -13,6 +13,7 @@ type Generator struct {
 	scopes         int
 	instructions   []Instruction
 	knownFunctions map[int]*SexpFunction
+	selfFunc       *SexpFunction // the function whose body is being generated (for tail calls)
 }
 
 type Loop struct {
@@ -42,6 +43,7 @@ func NewGenerator(env *Zlisp) *Generator {
 func (gen *Generator) NewSubGenerator() *Generator {
 	subgen := NewGenerator(gen.env)
 	subgen.knownFunctions = gen.knownFunctions
+	subgen.selfFunc = gen.selfFunc
 	return subgen
 }
 
@@ -129,6 +131,7 @@ func buildSexpFun(
 
 	sfun := gen.env.MakeFunction(gen.funcname, nargs, varargs, nil, orig)
 	sfun.SetFormalSymbols(argsyms)
+	gen.selfFunc = sfun
 	if len(name) > 0 {
 		gen.knownFunctions[env.MakeSymbol(name).number] = sfun
 	}
@@ -690,7 +693,7 @@ func (gen *Generator) GenerateCallBySymbol(sym *SexpSymbol, args []Sexp, orig Se
 
 	oldtail := gen.Tail
 	gen.Tail = false
-	if oldtail && sym.name == gen.funcname {
+	if oldtail && sym.name == gen.funcname && gen.isSelfTailCall(sym, len(args)) {
 		err := gen.GenerateCallArgsForFunction(gen.LookupKnownFunction(sym), args)
 		if err != nil {
 			return err
@@ -708,6 +711,25 @@ func (gen *Generator) GenerateCallBySymbol(sym *SexpSymbol, args []Sexp, orig Se
 	}
 	gen.Tail = oldtail
 	return nil
+}
+
+// isSelfTailCall says whether a call of sym with nargs arguments in tail
+// position may be compiled as a jump to the top of the function being
+// generated: the name must still denote that very function (an inner defn of
+// the same name shadows it) and the argument count must fit, otherwise the
+// call is made the ordinary way, which reports the arity error.
+func (gen *Generator) isSelfTailCall(sym *SexpSymbol, nargs int) bool {
+	self := gen.selfFunc
+	if self == nil {
+		return false
+	}
+	if known := gen.knownFunctions[sym.number]; known != nil && known != self {
+		return false
+	}
+	if self.varargs {
+		return nargs >= self.nargs
+	}
+	return nargs == self.nargs
 }
 
 func (gen *Generator) GenerateBuilder(fun Sexp, args []Sexp) error {
